@@ -9,7 +9,8 @@ import (
 )
 
 const (
-	minLongSmsHeaderLength = 6 // Additional header length for long SMS
+	minLongSmsHeaderLength = 6   // Additional header length for long SMS
+	maxLongSmsParts        = 255 // total and index are one octet each in the concatenation header
 
 	// Protocol header format of 6 for long SMS: 05 00 03 XX MM NN
 	longMsgHeader6ByteFrameKey   = byte(0x05)
@@ -81,7 +82,11 @@ func EncodeCMPPContentAndSplit(ctx context.Context, content string, msgFmt datac
 		return [][]byte{encodedData}, actualMsgFmt, nil
 	}
 
-	return splitWithUDHI(encodedData, perMsgLength, frameKey), actualMsgFmt, nil
+	contents, err = splitWithUDHI(encodedData, perMsgLength, frameKey)
+	if err != nil {
+		return nil, 0, err
+	}
+	return contents, actualMsgFmt, nil
 }
 
 // DecodeCMPPCContent decodes CMPP content using the provided dataCoding.
@@ -144,7 +149,11 @@ func EncodeSMPPContentAndSplit(ctx context.Context, content string, msgFmt datac
 		return [][]byte{encodedData}, actualMsgFmt, nil
 	}
 
-	return splitWithUDHI(encodedData, perMsgLength, frameKey), actualMsgFmt, nil
+	contents, err = splitWithUDHI(encodedData, perMsgLength, frameKey)
+	if err != nil {
+		return nil, 0, err
+	}
+	return contents, actualMsgFmt, nil
 }
 
 // DecodeSMPPCContent decodes SMPP content using the provided dataCoding.
@@ -196,6 +205,9 @@ func encodeAndSplitGSM7Packed(content string, frameKey byte) ([][]byte, datacodi
 	for begin := 0; begin < len(contentBytes); msgCount++ {
 		begin = gsm7PartEnd(contentBytes, begin, perMsgLength)
 	}
+	if msgCount > maxLongSmsParts {
+		return nil, 0, fmt.Errorf("content needs %d parts, at most %d are possible", msgCount, maxLongSmsParts)
+	}
 	res := make([][]byte, 0, msgCount)
 
 	for idx, begin := 0, 0; begin < len(contentBytes); idx++ {
@@ -237,9 +249,12 @@ func gsm7PartEnd(septets []byte, begin, perMsgLength int) int {
 }
 
 // splitWithUDHI splits the long message according to perMsgLength and adds a 6-byte header for concatenated SMS.
-func splitWithUDHI(data []byte, perMsgLength int, frameKey byte) [][]byte {
+func splitWithUDHI(data []byte, perMsgLength int, frameKey byte) ([][]byte, error) {
 	total := len(data)
 	msgCount := ceil(total, perMsgLength)
+	if msgCount > maxLongSmsParts {
+		return nil, fmt.Errorf("content needs %d parts, at most %d are possible", msgCount, maxLongSmsParts)
+	}
 	contentBytes := make([][]byte, 0, msgCount)
 	for idx := 0; idx < msgCount; idx++ {
 		contentByte := make([]byte, 0, perMsgLength+datacoding.UDHILength)
@@ -266,7 +281,7 @@ func splitWithUDHI(data []byte, perMsgLength int, frameKey byte) [][]byte {
 		contentBytes = append(contentBytes, contentByte)
 	}
 
-	return contentBytes
+	return contentBytes, nil
 }
 
 // ceil: rounding up to the nearest integer.
